@@ -75,7 +75,7 @@ func e2fn(x float64) float64 {
 }
 
 func e3fn(x float64) float64 {
-	return (x * x * x * (35 / 3072))
+	return (x * x * x * (35.0 / 3072.0))
 }
 
 func mlfn(e0, e1, e2, e3, phi float64) float64 {
